@@ -524,6 +524,24 @@ func tmpArtefacts(list []string) []string {
 	return uniq(out)
 }
 
+// strayEntries lists top-level entries of a work_dir that are neither foreign (allowed) nor a directory that was
+// ever opened as a database under that name in this run: whatever else the validator left behind is an artefact,
+// whether or not its name matches the temporary-name pattern.
+func (h *Harness) strayEntries(wd string, allowed map[string]bool) []string {
+	var out []string
+	ents, _ := os.ReadDir(wd)
+	h.Disk.mu.Lock()
+	defer h.Disk.mu.Unlock()
+	for _, e := range ents {
+		if allowed[e.Name()] || h.Disk.OpenedNames[e.Name()] {
+			continue
+		}
+		out = append(out, e.Name())
+	}
+	sort.Strings(out)
+	return out
+}
+
 func uniq(s []string) []string {
 	var out []string
 	for i, x := range s {
